@@ -72,9 +72,15 @@ def Lit.compareValue : Lit → Option Value
   | .null => none
   | l => some l.toValue
 
+/-- arithmetic operators allowed inside an operand (`BinOp::Add | Sub | Mul | Div`) -/
+inductive ArithOp where
+  | add | sub | mul | div
+  deriving DecidableEq, Repr
+
 inductive Operand where
   | field (name : String)   -- `Expr::Ident`
   | lit (l : Lit)
+  | arith (op : ArithOp) (a b : Operand)   -- `Expr::Binary { op ∈ {Add,Sub,Mul,Div}, .. }` over the current event
   deriving Repr
 
 inductive CmpOp where
@@ -100,9 +106,39 @@ abbrev Event := List (String × Value)
 
 /-! ### the VPL evaluator (`eval_expr_with_functions`, empty bindings) -/
 
+/-- `i64` wrap-around (`wrapping_add/sub/mul/div`) -/
+def wrap64 (n : Int) : Int := (n + 2 ^ 63) % 2 ^ 64 - 2 ^ 63
+
+/-- an IEEE-754 binary64 operation, computed by Lean's `Float` (the same hardware operation the
+Rust code executes); only NaN-ness of a NaN result matters downstream, payloads are not compared -/
+def fop (f : Float → Float → Float) (a b : F64) : F64 :=
+  ⟨(f (Float.ofBits a.bits.toUInt64) (Float.ofBits b.bits.toUInt64)).toBits.toNat⟩
+
+def floatArith : ArithOp → F64 → F64 → F64
+  | .add => fop (· + ·) | .sub => fop (· - ·) | .mul => fop (· * ·) | .div => fop (· / ·)
+
+def intArith : ArithOp → Int → Int → Int
+  | .add, a, b => wrap64 (a + b) | .sub, a, b => wrap64 (a - b) | .mul, a, b => wrap64 (a * b)
+  | .div, a, b => wrap64 (Int.tdiv a b)
+
+/-- arms `BinOp::Add … BinOp::Div` of `eval_expr_with_functions`: `Int∘Int` wrapping, `Float∘Float`,
+mixed through `as f64`, `Str + Str` concatenation; `/` only with a non-zero divisor; else no value -/
+def evalArith (op : ArithOp) (x y : Value) : Option Value :=
+  match x, y with
+  | .int a, .int b => if op == .div && b == 0 then none else some (.int (intArith op a b))
+  | .float a, .float b => if op == .div && b.isZero then none else some (.float (floatArith op a b))
+  | .int a, .float b => if op == .div && b.isZero then none else some (.float (floatArith op (ofInt a) b))
+  | .float a, .int b => if op == .div && b == 0 then none else some (.float (floatArith op a (ofInt b)))
+  | .str a, .str b => if op == .add then some (.str (a ++ b)) else none
+  | _, _ => none
+
 def evalOperand : Operand → Event → Option Value
   | .field f, ev => lookupV f ev
   | .lit l, _ => some l.toValue
+  | .arith op a b, ev =>
+    match evalOperand a ev, evalOperand b ev with
+    | some x, some y => evalArith op x y
+    | _, _ => none
 
 /-- `is_some_and(Ordering::is_lt)` etc.; `ord` is only used with the four ordering operators -/
 def ordResult : CmpOp → Option Ordering → Bool
@@ -283,6 +319,70 @@ def stepAcceptsOld (e : FExpr) (ev : Event) : Bool :=
   match toPredOld e with
   | some p => evalP p ev
   | none => true
+
+/-! ### the front end: constant folding (`varpulis-parser optimize.rs`)
+
+`parse` folds the expression of `.where(...)` (`fold_stream_op`: `StreamOp::Where`) but passes
+`StreamOp::FollowedBy` through unchanged, so a step filter reaches `expr_to_sase_predicate` as
+written. -/
+
+/-- `fold_binary`, first part: both operands literals of the same numeric type -/
+def foldLit (op : ArithOp) : Operand → Operand → Option Operand
+  | .lit (.int x), .lit (.int y) => if op == .div && y == 0 then none else some (.lit (.int (intArith op x y)))
+  | .lit (.float x), .lit (.float y) =>
+    if op == .div && y.isZero then none else some (.lit (.float (floatArith op x y)))
+  | _, _ => none
+
+def isLitInt (n : Int) : Operand → Bool
+  | .lit (.int m) => m == n
+  | _ => false
+
+/-- `fold_binary`, second part: the identity rewrites `x*0, 0*x → 0; x*1, 1*x, x+0, 0+x, x-0, x/1 → x`,
+applied without knowing the type of `x` (C10 finding `C10-identity-rewrite`) -/
+def foldIdent (op : ArithOp) (a b : Operand) : Option Operand :=
+  match op with
+  | .mul => if isLitInt 0 b || isLitInt 0 a then some (.lit (.int 0))
+            else if isLitInt 1 b then some a else if isLitInt 1 a then some b else none
+  | .add => if isLitInt 0 b then some a else if isLitInt 0 a then some b else none
+  | .sub => if isLitInt 0 b then some a else none
+  | .div => if isLitInt 1 b then some a else none
+
+/-- `fold_expr` on an operand -/
+def foldOpd : Operand → Operand
+  | .arith op a b =>
+    match foldLit op (foldOpd a) (foldOpd b) with
+    | some r => r
+    | none => match foldIdent op (foldOpd a) (foldOpd b) with
+      | some r => r
+      | none => .arith op (foldOpd a) (foldOpd b)
+  | o => o
+
+/-- `fold_expr` on a filter expression -/
+def foldE : FExpr → FExpr
+  | .cmp op l r => .cmp op (foldOpd l) (foldOpd r)
+  | .other op l r => .other op (foldOpd l) (foldOpd r)
+  | .atom o => .atom (foldOpd o)
+  | .and a b => .and (foldE a) (foldE b)
+  | .or a b => .or (foldE a) (foldE b)
+  | .not a => .not (foldE a)
+
+/-- no identity rewrite fires anywhere in the operand (literal∘literal folding may) -/
+def identFreeOpd : Operand → Bool
+  | .arith op a b =>
+    identFreeOpd a && identFreeOpd b &&
+      ((foldLit op (foldOpd a) (foldOpd b)).isSome || (foldIdent op (foldOpd a) (foldOpd b)).isNone)
+  | _ => true
+
+def identFree : FExpr → Bool
+  | .cmp _ l r => identFreeOpd l && identFreeOpd r
+  | .other _ l r => identFreeOpd l && identFreeOpd r
+  | .atom o => identFreeOpd o
+  | .and a b => identFree a && identFree b
+  | .or a b => identFree a && identFree b
+  | .not a => identFree a
+
+/-- `.where(e)` as the engine runs it: on the folded expression -/
+def whereAcceptsFE (e : FExpr) (ev : Event) : Bool := whereAccepts (foldE e) ev
 
 /-! ### where the two contexts can differ: the guard of the partial theorem -/
 
